@@ -208,7 +208,9 @@ def bounds_pass_through(ctx) -> None:
                 targets = st.targets if isinstance(st, ast.Assign) else [st.target]
                 hit = {x.id for t in targets for x in ast.walk(t) if isinstance(x, ast.Name)} & mine
                 for name in sorted(hit):
-                    if (fn.ref, name) in BOUND_REBIND_OK and (f'{name} is None', True) in cfg.cguards(st, fn.node) or (fn.ref, name) in BOUND_REBIND_OK and (f'{name} is None', True) in [(t, p) for t, p in cfg.cguards(st, fn.node, siblings=True)]:
+                    # the reviewed default applies exactly when that bound is absent - under no further condition (a default
+                    # that also depends on the other bound silently reads an open window when only that one is given)
+                    if (fn.ref, name) in BOUND_REBIND_OK and (cfg.cguards(st, fn.node) == [(f'{name} is None', True)] or [(t, p) for t, p in cfg.cguards(st, fn.node, siblings=True)] == [(f'{name} is None', True)]):
                         ctx.ok('C10.bounds', fn, f'{name}: {BOUND_REBIND_OK[(fn.ref, name)]}', st)
                         continue
                     ctx.fail('C10.bounds', fn, f'the `{name}` bound of the requested window is re-bound on the way to the reader (`{core.src(st)[:70]}`)', st, key=f'rebind:{name}')
